@@ -5,11 +5,9 @@ open CB.ModArith
 
 /-!
   Driver of property C07.  Every line prints `L1 ;; L0`:
-  `L1` = the limb-level model of `CB.Model.ModArith` (mirrors the release build),
+  `L1` = the limb-level model of `CB.Model.ModArith` (mirrors the code; both build profiles agree),
   `L0` = what the property demands, computed on plain `Nat`s (the canonical residue).
   Fixed-width results are printed as hex values, boxed results as `<nlimbs>:<hex>`.
-  `mul_mod_special` prints `L1release ## panic ;; L0` where `carry.0 + 1` overflows (the dbgchk
-  profile panics there, the release profile wraps).
   Generators only emit lines inside the documented preconditions (`a, b < p`, `p` odd where
   required, `1 ≤ c < 2^64`), so `L0` is defined on every line.
 -/
@@ -47,10 +45,7 @@ def dispatchC07 : Dispatch := fun op args =>
       | "c07.u.add_mod_special", [a, b, c] => some (outU (addModSpecial (L a) (L b) c) (l0add a b (K - c)))
       | "c07.u.sub_mod_special", [a, b, c] => some (outU (subModSpecial (L a) (L b) c) (l0sub a b (K - c)))
       | "c07.u.neg_mod_special", [a, c] => some (outU (negModSpecial (L a) c) (l0neg a (K - c)))
-      | "c07.u.mul_mod_special", [a, b, c] =>
-        -- profile-specific L1: the build with overflow checks panics at `carry.0 + 1`
-        let dbg := if mulModSpecialOverflows (L a) (L b) c then " ## panic" else ""
-        some s!"{limbsHex (mulModSpecial (L a) (L b) c)}{dbg} ;; {natToHex (l0mul a b (K - c))}"
+      | "c07.u.mul_mod_special", [a, b, c] => some (outU (mulModSpecial (L a) (L b) c) (l0mul a b (K - c)))
       | "c07.u.mul_mod", [a, b, p] => some (outU (mulMod (L a) (L b) (L p)) (l0mul a b p))
       | "c07.u.mul_mod_vartime", [a, b, p] => some (outU (mulModVartime (L a) (L b) (L p)) (l0mul a b p))
       | "c07.u.mul_mod_tr", [a, b, p] => some (outU (mulModVartime (L a) (L b) (L p)) (l0mul a b p))
@@ -66,9 +61,7 @@ def dispatchC07 : Dispatch := fun op args =>
       | "c07.b.neg_mod_tr", [a, p] => some (outB (bNegMod (L a) (L p)) n (l0neg a p))
       | "c07.b.sub_mod_special", [a, b, c] => some (outB (bSubModSpecial (L a) (L b) c) n (l0sub a b (K - c)))
       | "c07.b.neg_mod_special", [a, c] => some (outB (bNegModSpecial (L a) c) n (l0neg a (K - c)))
-      | "c07.b.mul_mod_special", [a, b, c] =>
-        let dbg := if mulModSpecialOverflows (L a) (L b) c then " ## panic" else ""
-        some s!"{limbsHexLen (bMulModSpecial (L a) (L b) c)}{dbg} ;; {n}:{natToHex (l0mul a b (K - c))}"
+      | "c07.b.mul_mod_special", [a, b, c] => some (outB (bMulModSpecial (L a) (L b) c) n (l0mul a b (K - c)))
       | "c07.b.mul_mod", [a, b, p] => some (outB (mulMod (L a) (L b) (L p)) n (l0mul a b p))
       | "c07.b.mul_mod_tr", [a, b, p] => some (outB (mulMod (L a) (L b) (L p)) n (l0mul a b p))
       | "c07.b.div_by_2", [a, p] => some (outB (bDivBy2 (L a) (L p)) n (l0half a p))
